@@ -39,6 +39,7 @@ PROP = {
             "family and level one router with a stream of 40 (quick) / 1200 (thorough) messages, poison publisher failing from the k-th "
             "message on or at random, the Router's own publisher failing in a quarter of the cases; in three of the seven filter families the handler consumes the poison topic itself (subscribe topic == poison topic); settlement read from Acked()/Nacked(), "
             "the returned (events, err) read by an observer middleware outside the poison middleware. "
+            "long error texts (1000 .. 70000 bytes, lengths around 1 KiB / 4 KiB / 64 KiB, plain, %w-wrapped and as multierror parts, the distinguishing part at the END of the text as in a wrapped chain) stand-alone through five filter families and inside a Router: the reason metadata must be the whole err.Error(). " 
             "pqf (stateful filters): PoisonQueueWithFilter with a filter scripted as a sequence of answers (budgets 1100.., alternating, "
             "single answers) - 13 answer scripts x {ok, errors.New, sentinel, multierror} x publisher ok/fail stand-alone, and 12 (quick) "
             "streams of 8 messages through one middleware value stand-alone and inside a Router; the number of consultations per message "
